@@ -130,6 +130,7 @@ def meta_conf(case, rid, registry):
             "  distanceZ {", "    main { atomNumbers 1 }", "    ref { dummyAtom (0,0,0) }", "    axis (0,0,1)", "  }", "}",
             "metadynamics {", "  name m", "  colvars v0", "  hillWeight 1", "  gaussianSigmas %r" % SIGMA,
             "  newHillFrequency %d" % case["hillfreq"]] + (["  useGrids on", "  writeFreeEnergyFile off"] if case.get("grids", True) else ["  useGrids off"]) + [
+          ] + (["  stepZeroData on"] if case.get("szd") else []) + [
             "  multipleReplicas on", "  replicaID %s" % rid, "  replicasRegistry %s" % registry,
             "  replicaUpdateFrequency %d" % case["upfreq"], "}"]
 
@@ -332,6 +333,22 @@ def run_view(exe, case, scratch, timeout=30.0):
             "list_ok": True, "reg_ok": not case.get("late_register", False), "reg_own": ""}
     w1line = "w1 %s\n" % vlist
 
+    def classify_list(data):
+        """what update_replicas_registry() makes of a list file: 2 = both names, 0 = nothing usable, else a hills file name cut short"""
+        t = data.decode("utf8", "replace").split()
+        if len(t) < 4 or t[0] != "stateFile" or t[2] != "hillsFile" or t[1] != vstate:
+            return 0
+        return 2 if t[3] == vhills else 100 + len(t[3])
+
+    def classify_reg(line):
+        t = line.split()
+        if len(t) < 2:
+            return 0
+        return 2 if t[1] == vlist else 100 + len(t[1])
+
+    view["lv"] = 2
+    view["rv"] = 0 if case.get("late_register", False) else 2
+
     def finish_rewrite():
         """second half of a state-file rewrite delivered in two stages: the new state file becomes visible"""
         if view.get("mid"):
@@ -396,12 +413,15 @@ def run_view(exe, case, scratch, timeout=30.0):
                 atomic_write(vhills, hb[:kk])
                 view["hills_bytes"] = kk
             elif ev[0] == "pl":
-                atomic_write(vlist, full_list if ev[1] is None else full_list[:ev[1]])
+                cut = full_list if ev[1] is None else full_list[:ev[1]]
+                atomic_write(vlist, cut)
                 view["list_ok"] = ev[1] is None or ev[1] >= len(full_list)
+                view["lv"] = classify_list(cut)
             elif ev[0] == "pg":
                 if view["registered"]:
                     atomic_write(regr, (view["reg_own"] + (w1line if ev[1] is None else w1line[:ev[1]])).encode())
                     view["reg_ok"] = ev[1] is None or ev[1] >= len(w1line)
+                    view["rv"] = classify_reg(w1line if ev[1] is None else w1line[:ev[1]])
             elif ev[0] == "pt":
                 if not view.get("mid") and view["p_state_sig"] is not None:
                     sb = read_bytes(p_files()[0]) or b""
@@ -418,6 +438,8 @@ def run_view(exe, case, scratch, timeout=30.0):
             hb = read_bytes(p_files()[1])
             rec["reclen"] = record_length(hb) if hb and b"}\n" in hb else None
             rec["view_hills_bytes"] = view["hills_bytes"]
+            rec["lv"] = view["lv"]
+            rec["rv"] = view["rv"]
             rec["mid"] = bool(view.get("mid"))
             rec["state_partial"] = view["state_partial"]
             rec["view_state_step"] = None if view["state_partial"] else state_step(vstate)
@@ -475,8 +497,9 @@ def run_czar(exe, case, scratch, timeout=30.0):
             T.all_do(lambda i: ["pos 1 0 0 %s" % float(row[i][0] + row[i][1]).hex(),
                                 "eforce 1 0 0 %s" % float(row[i][2]).hex(), "step"], timeout)
             if t in case["gather_at"]:
+                before = [parse_shared(r) for r in T.all_do(["dumpshared a"], timeout)]
                 out = T.all_do(["postrun", "dumpshared a"], timeout)
-                res.append((t, [parse_shared(r) for r in out], [[x for x in r if x.startswith("POSTRUN")] for r in out]))
+                res.append((t, [parse_shared(r) for r in out], [[x for x in r if x.startswith("POSTRUN")] for r in out], before))
         stats = T.all_do(["repstat"], timeout)
     return res, stats
 
@@ -486,10 +509,20 @@ def run_czar(exe, case, scratch, timeout=30.0):
 # ------------------------------------------------------------------------------------------
 
 def opes_conf(case):
-    return ["colvar {", "  name v0", "  distanceZ {", "    main { atomNumbers 1 }", "    ref { dummyAtom (0,0,0) }",
-            "    axis (0,0,1)", "  }", "}",
-            "opes_metad {", "  name o", "  colvars v0", "  newHillFrequency %d" % case["pace"], "  barrier 10",
-            "  gaussianSigma 0.125", "  fixedGaussianSigma on", "  compressionThreshold 0", "  multipleReplicas on", "  sharedFreq %d" % case["pace"], "}"]
+    v = case.get("variant", "plain")
+    L = ["colvar {", "  name v0", "  distanceZ {", "    main { atomNumbers 1 }", "    ref { dummyAtom (0,0,0) }",
+         "    axis (0,0,1)", "  }", "}",
+         "opes_metad {", "  name o", "  colvars v0", "  newHillFrequency %d" % case["pace"], "  barrier 10"]
+    if v == "adaptive":
+        L += ["  adaptiveSigma on", "  adaptiveSigmaStride %d" % (2 * case["pace"]), "  gaussianSigmaMin 0.01"]
+    else:
+        L += ["  gaussianSigma 0.125"]
+    if v == "plain":
+        L += ["  fixedGaussianSigma on", "  compressionThreshold 0"]
+    elif v == "nlist":
+        L += ["  neighborList on", "  compressionThreshold 0"]
+    L += ["  multipleReplicas on", "  sharedFreq %d" % case["pace"], "}"]
+    return L
 
 
 def parse_opes(lines):
